@@ -22,7 +22,8 @@ one() {  # name patch checks...
   base=$(VERIF_REPO="$T" ./baseline_off.sh 2>/dev/null | grep -c ": ok")
   res=""
   for id in "$@"; do
-    if VERIF_REPO="$T" VERIF_EVIDENCE_DIR="$T/ev" timeout 3000 ./vpcheck "$id" > "$T/out" 2>&1; then rc=0; else rc=$?; fi
+    case "$id" in *@thorough) targs="--tier thorough";; *) targs="";; esac
+    if VERIF_REPO="$T" VERIF_EVIDENCE_DIR="$T/ev" timeout 6000 ./vpcheck "${id%@thorough}" $targs > "$T/out" 2>&1; then rc=0; else rc=$?; fi
     res="$res $id=$( [ $rc = 1 ] && echo caught || echo "MISSED(exit$rc)")"
   done
   echo "$name: baseline $base/30;$res"
@@ -36,7 +37,7 @@ for d in seeded/*/; do
   e=$(python3 -c "
 import json,sys
 m=json.load(open('$d/meta.json')); own='$n'.split('-')[0]
-c=[x['check'] for x in m.get('checks',[]) if x.get('caught')]
+c=[x['check'].replace(' --tier thorough','@thorough') for x in m.get('checks',[]) if x.get('caught')]
 c=sorted(set(c), key=lambda x:(x!=own, x))
 print(' '.join(c[:2]))")
   [ -n "$e" ] && { one "seed-$n" "$(readlink -f "$d/patch.diff")" $e & }
